@@ -245,6 +245,7 @@ func genScenarioC08(t *Tape, thorough bool) *Scenario {
 		o.MaxUnits = 5
 	}
 	o.TableIDReuse = cs.Chance(1, 2) // tables re-announced with other column types, ids taken over
+	o.WideTables, o.WideChance = true, 6 // tables beyond 64 columns, some with all their by-reference columns behind the 64th
 	h := genHistoryFor(t, hs, &o)
 	sc := &Scenario{Hist: h, Start: pickStart(cs, h, true), ServerID: 1001}
 	a := cleanAttempt(cs, t.S("policy"))
@@ -595,6 +596,7 @@ type faultEmphasis struct {
 	Bystander    bool // C07: some runs have a second Streamer with the same server id in the process
 	EnvPanic     bool // C05: some failing callbacks panic instead of returning an error
 	StartHigh    bool // C05: start offsets with bits above 2^32 set
+	Backlog      bool // C05: some runs cancel early in a long backlog the master sends at once
 	GateAccepted bool // C17: some injected packets are bare headers that pass the validity gate
 	ConnPhase    int  // 1/n chance that a fault attempt is a connection-phase fault
 	Kinds        []stopKind
@@ -606,10 +608,24 @@ type faultEmphasis struct {
 
 func genFaultScenario(t *Tape, o *GenOpts, em faultEmphasis) *Scenario {
 	hs := t.S("hist")
+	backlog := em.Backlog && t.S("backlog").Chance(1, 16)
+	if backlog {
+		// a replica that starts far behind: a hundred and more small transactions the
+		// master sends as fast as the socket takes them
+		oc := *o
+		oc.MinUnits, oc.MaxUnits = 100, 150
+		oc.MaxStmts, oc.MaxRows, oc.MaxCols, oc.MaxTables = 2, 2, 3, 4
+		oc.Prof = genProfile{MaxStr: 6, Kinds: []colKind{kTiny, kLong, kVarchar, kYear}}
+		oc.WideTables, oc.Rare = false, false
+		o = &oc
+	}
 	h := genHistoryFor(t, hs, o)
 	cs := t.S("cfg")
 	fs := t.S("fault")
 	sc := &Scenario{Hist: h, Start: pickStart(cs, h, true), ServerID: replicaIDOf(t)}
+	if backlog {
+		sc.Start = h.Boundaries()[0]
+	}
 	sc.Scribble = cs.Chance(1, 6) // a consumer that overwrites what it accepted, also across attempts
 	if em.Timeout {
 		sc.ReadTimeout = cs.Chance(1, 3)
@@ -683,6 +699,20 @@ func genFaultScenario(t *Tape, o *GenOpts, em faultEmphasis) *Scenario {
 		}
 		if i > 0 && sc.Attempts[i-1].Stop == stopHandlerErr && fs.Chance(1, 3) {
 			p.SkipRefused = true
+		}
+		if backlog && i == 0 {
+			// the caller cancels a few packets into the backlog; the rest keeps
+			// arriving ahead of the parser
+			q := p
+			q.Stream = StreamPlan{}
+			fillFault(fs, h, stopCancel, 3+fs.N(30), &q)
+			q.Pacing, q.BlockedAtStop, q.NoCancelCtx, q.StallAfterStop = 0, false, false, false
+			q.IdleFor, q.SlowHandler, q.EnvPanic, q.SkipRefused = 0, 0, false, false
+			q.Seg = []int{0, 1}[fs.N(2)]
+			// the parser pauses inside every event (its log calls are scheduling
+			// points), so the reader always has the next event ready
+			q.LogYield, q.DebugYield = true, true
+			p = q
 		}
 		sc.Attempts = append(sc.Attempts, p)
 	}
